@@ -6,6 +6,7 @@ UnionNode, JoinNode and real tasks), replays every case on the model and on the 
 -/
 import Kap.Basic
 import Kap.Spec.C12
+import Kap.Model.C12On
 import Kap.Proofs.C12CQ
 open Kap Kap.C12
 
@@ -148,6 +149,9 @@ structure St where
   jDead : Bool := false
   jBars : Bool := false
   jBatch : Bool := false
+  jOnDims : List String := []            -- join.on() dimensions (empty: plain join)
+  jOn : JOn := {}
+  jOnArr : List Spec.OnArrival := []      -- arrivals of an on() join, reversed
   jDel : Bool := false                    -- a DeleteGroup message occurred: pending sets were dropped by design
   -- real task
   tKind : String := ""
@@ -254,6 +258,7 @@ def judgeLine (st : St) (l : String) : Except Verdict St := do
     let some cfg := parseCfg rest | throw (.badop l)
     if obs != ["ok"] then throw (.mismatch s!"join new: observed {obs}")
     pure { st with kind := "join", jcfg := cfg, jcfgText := " ".intercalate rest, jn := JNode.init, jArr := [], jSteps := [], jObs := [], jRaw := [], jDead := false, jDel := false,
+                   jOnDims := splitList ((kvGet (kvOf rest) "on").getD "-"), jOn := {}, jOnArr := [],
                    jBatch := (kvGet (kvOf rest) "edge") == some "batch" }
   | "j" :: "pt" :: src :: t :: rest =>
     let some src := src.toNat? | throw (.badop l)
@@ -262,6 +267,22 @@ def judgeLine (st : St) (l : String) : Except Verdict St := do
     if src ≥ st.jcfg.parents then throw (.badop l)
     let st := { st with jArr := (src, msg) :: st.jArr, jSteps := (src, msg.grp, t) :: st.jSteps,
                         jRaw := (src, " ".intercalate ("pt" :: t.repr :: rest)) :: st.jRaw }
+    if !st.jOnDims.isEmpty then
+      -- join.on(): through matchPoints
+      let some gg := (kvGet (kvOf rest) "ggrp").bind unesc | throw (.badop l)
+      let specific := msg.dims.length > st.jOnDims.length
+      let tr := goRound st.jcfg.tol t
+      let lowMark := JOn.lowMarkOf st.jcfg.parents gg (JOn.lmUpsert (src, gg) tr st.jOn.lowMarks)
+      let st := addBrs st ([if specific then "on-specific-point" else "on-match-point"] ++
+        (if !st.jOn.allReported then ["on-before-all-reported"] else []) ++
+        (if specific && ((JOn.bufLookup gg st.jOn.matchBuf).getD []).any (fun x => goRound st.jcfg.tol x.2.time == tr) then ["on-option1-cached-match"] else []) ++
+        (if !specific && ((JOn.bufLookup gg st.jOn.specBuf).getD []).any (fun x => goRound st.jcfg.tol x.2.time == tr) then ["on-cached-specific-matched"] else []) ++
+        (if st.jOn.allReported && ((JOn.bufLookup gg st.jOn.specBuf).getD []).any (fun x => JOn.beforeMark (goRound st.jcfg.tol x.2.time) lowMark) then ["on-purge-specific-alone"] else []) ++
+        (if specific && st.jOn.allReported && JOn.beforeMark tr lowMark then ["on-option3-late-specific"] else []))
+      let (on', sets, status) := st.jOn.point st.jcfg src msg specific gg
+      let st := { st with jOn := on', jOnArr := { src := src, msg := msg, specific := specific, general := gg } :: st.jOnArr }
+      let st := addBr st (if on'.specBuf.any (fun p => !p.2.isEmpty) then "on-specific-cached" else "on-nothing-cached")
+      return ← judgeJoin st l obs on'.node sets status [] false
     let st := addBrs st (joinBranches st (st.jn.group st.jcfg msg.grp) src (goRound st.jcfg.tol t))
     let (nd, sets, status) := st.jn.point st.jcfg src msg
     judgeJoin st l obs nd sets status [] false
@@ -295,6 +316,10 @@ def judgeLine (st : St) (l : String) : Except Verdict St := do
                 jDel := true, jRaw := (src, " ".intercalate ("del" :: rest)) :: st.jRaw }
     judgeJoin st l obs (st.jn.delete grp) [] .ok [s!"D;{esc grp}"] false
   | ["j", "fin"] =>
+    if !st.jOnDims.isEmpty then
+      let st := addBr st (if st.jOn.specBuf.any (fun p => !p.2.isEmpty) then "on-finish-flushes-cached-specific" else "on-finish-nothing-cached")
+      let (on', sets, status) := st.jOn.finish st.jcfg
+      return ← judgeJoin { st with jOn := on' } l obs on'.node sets status [] true
     let (gs, sets, status) := JNode.finish st.jn.groups
     judgeJoin st l obs { groups := gs } sets status [] true
   /- ---------------- real tasks (multiConsumer decides the interleaving) ---------------- -/
@@ -473,7 +498,13 @@ where
     let steps := st.jSteps.reverse
     let arrivals := st.jArr.reverse
     let ordered := decide (Spec.joinOrdered st.jcfg steps)
-    if fin && ordered && !st.jDel && (!st.jBatch || decide (Spec.batchPointsOrdered st.jcfg arrivals)) then
+    let onArr := st.jOnArr.reverse
+    let onOk := !st.jOnDims.isEmpty && decide (Spec.onDomain st.jcfg onArr)
+    if fin && onOk then
+      let want := sortStrings ((Spec.joinOnOutput st.jcfg onArr).map renderOut)
+      let got := sortStrings obsAll
+      if want != got then throw (.specfail "join-on-pairs-specific-with-general" s!"{l}: spec {want} observed {got}")
+    if fin && st.jOnDims.isEmpty && ordered && !st.jDel && (!st.jBatch || decide (Spec.batchPointsOrdered st.jcfg arrivals)) then
       let want := sortStrings (if st.jBatch then (Spec.joinBatchOutput st.jcfg arrivals).map renderBOut
                                else (Spec.joinOutput st.jcfg arrivals).map renderOut)
       let got := sortStrings obsAll
@@ -482,7 +513,10 @@ where
     let mOut := (if st.jBatch then (sets.filterMap (joinIntoBatch st.jcfg)).map renderBOut
                  else (sets.filterMap (joinIntoPoint st.jcfg)).map renderOut) ++ extra
     let mOut := if fin then sortStrings mOut else mOut
-    let mdl := [toString mOut.length] ++ mOut ++ ["|"] ++ renderGroups nd
+    let ma := (st.jOn.matchBuf.map (·.2.length)).sum
+    let sp := (st.jOn.specBuf.map (·.2.length)).sum
+    let mdl := [toString mOut.length] ++ mOut ++ ["|"] ++ renderGroups nd ++
+      (if !st.jOnDims.isEmpty && ma + sp > 0 then [s!"M;{ma};{sp}"] else [])
     if status != .ok then throw (.mismatch s!"{l}: model status {statusTok status}, observed {obs}")
     let st := if obs != mdl then noteMM st s!"{l}: model {mdl} observed {obs}" else st
     ignore stToks
@@ -510,7 +544,7 @@ where
     if fin then
       st := addBr st (if sets.isEmpty then "finish-nothing-buffered" else "finish-flushes")
       let r : RunRec := { cfg := st.jcfgText, seqs := seqsOf st.jcfg.parents st.jRaw, out := sortStrings obsAll }
-      if ordered && !st.jDel then
+      if (if st.jOnDims.isEmpty then ordered && !st.jDel else onOk) then
         match crossCheck st r with
         | some d => throw (.specfail "join-interleaving-independent" d)
         | none => pure ()
